@@ -75,6 +75,29 @@ def run_check(prop, tier, repo=None, quiet=False):
                 ctx.fail_closed("anchor not resolved: %s" % e)
             except Inconclusive as e:
                 ctx.fail_closed(str(e))
+        if tier == "thorough" and not os.environ.get("VF_NO_SELFTEST"):
+            # checker self-validation (DESIGN §6): the property's seeded mutants against scratch copies of the tree under test.
+            # Results are evidence about the checker; they never become a VIOLATION of the tree under test.
+            try:
+                from .selftest import selftest
+                import io
+                import contextlib
+                buf = io.StringIO()
+                with contextlib.redirect_stdout(buf):
+                    res = selftest(repo, None, [prop], 8)
+                ctx.extra["mutant_selftest"] = dict(
+                    total=len(res),
+                    caught=[r["name"] for r in res if r["status"] == "caught"],
+                    silent_on_behaviour_preserving=[r["name"] for r in res if r["status"] == "ok"],
+                    missed=[r["name"] for r in res if r["status"] == "MISSED"],
+                    false_alarms=[r["name"] for r in res if r["status"] == "FALSE-ALARM"],
+                    skipped=[(r["name"], r.get("status")) for r in res if r["status"] in ("skipped", "does-not-compile")],
+                )
+                print("selftest: %d mutants of %s: %d caught, %d silent-as-expected, %d missed, %d false alarms, %d skipped" % (
+                    len(res), prop, len(ctx.extra["mutant_selftest"]["caught"]), len(ctx.extra["mutant_selftest"]["silent_on_behaviour_preserving"]),
+                    len(ctx.extra["mutant_selftest"]["missed"]), len(ctx.extra["mutant_selftest"]["false_alarms"]), len(ctx.extra["mutant_selftest"]["skipped"])))
+            except Exception as e:  # noqa
+                ctx.note("mutant selftest failed to run: %s" % e)
         if tier == "thorough" and hasattr(mod, "thorough"):
             try:
                 mod.thorough(ctx, work=work, repo=repo)
